@@ -1,14 +1,17 @@
 #!/bin/bash
-# offline setup: build the harness crate for the default configurations (warms the cargo caches) and self-test the references
+# offline setup: build the harness crate for the configurations the quick checks use (warms the cargo caches),
+# build the native replay binaries, and self-test the reference specifications against published vectors
 set -e
 cd "$(dirname "$0")"
 export CARGO_NET_OFFLINE=true PYTHONPATH=/verif:/verif/checks PYTHONHASHSEED=0
 python3-vt - <<'PY'
 from llsym import build, entry
-for c in ('release-std', 'release-nosimd', 'devchk-std'):
+for c in ('release-std', 'release-nosimd', 'devchk-std', 'devchk-nosimd', 'release-nounroll'):
     lls, dt = build.build(c)
     print('built', c, len(lls), 'IR files in %.1fs' % dt)
 entry.replay_bin('release'); entry.replay_bin('debug')
-from specs import chacha
+from specs import chacha, blake, threefish
 print('chacha reference KATs:', chacha.selftest())
+print('blake reference KATs:', blake.selftest())
+print('threefish/skein reference KATs:', threefish.selftest())
 PY
